@@ -29,6 +29,7 @@ classmodel("TransactionManager", {
     "_pending_txn_partitions": Set(TP),
     "_txn_consumer_group": Opt(STR),
     "_pending_txn_offsets": List(PENDING),
+    "_abortable_error": Opt(EXC),
 }, real=MOD + ":TransactionManager",
     props={"producer_id": "self._pid_and_epoch[0]", "producer_epoch": "self._pid_and_epoch[1]",
            "txn_partitions": "self._txn_partitions"})
@@ -189,11 +190,11 @@ def _(c):
     c.ensures("def", "result == (self.state == TransactionState.FATAL_ERROR)")
 
 
-@contract(MOD + ":TransactionManager.has_abortable_error", ["C16", "C07"])
+@contract(MOD + ":TransactionManager.abortable_error", ["C16", "C07"])
 def _(c):
     c.self_("TransactionManager")
-    c.returns(BOOL)
-    c.ensures("def", "result == (self.state == TransactionState.ABORTABLE_ERROR)")
+    c.returns(Opt(EXC))
+    c.ensures("def", "result == self._abortable_error")
 
 
 @contract(MOD + ":TransactionManager.needs_transaction_commit", ["C16", "C07"])
@@ -217,8 +218,9 @@ def _(c):
 def _(c):
     c.self_("TransactionManager")
     inv(c)
-    c.modifies("self.state", "self._txn_partitions", "self._txn_consumer_group",
+    c.modifies("self.state", "self._txn_partitions", "self._txn_consumer_group", "self._abortable_error",
                "self._transaction_waiter.state", "self._transaction_waiter.nres")
+    c.ensures("the-ended-transactions-error-is-forgotten", "self._abortable_error is None")
     # only the EndTxn handler and the empty-transaction shortcut call it, while ending; should an error transition
     # (abortable / fatal) have overtaken the commit, the table refuses READY and nothing changes
     c.requires("self.state != TransactionState.UNINITIALIZED", "producer-id-was-initialised")
@@ -231,6 +233,42 @@ def _(c):
     c.ensures("ready", "self.state == TransactionState.READY")
     c.ensures("scope-cleared", "is_empty(self._txn_partitions) and self._txn_consumer_group is None")
     c.ensures("caller-released", "implies(self._transaction_waiter is not None, self._transaction_waiter.done())")
+    c.replay_fn = lambda model, ob=None: {"script": _COMPLETE_SCRIPT}
+
+
+# replay: two transactions on a real manager, each sending offsets for the same group; ended by commit or by abort.
+# The second transaction must register the group with the coordinator again (AddOffsetsToTxn) and start with no partitions
+_COMPLETE_SCRIPT = '''
+import asyncio, logging
+logging.disable(logging.CRITICAL)
+from aiokafka.producer.transaction_manager import TransactionManager, TransactionState
+from aiokafka.structs import TopicPartition, OffsetAndMetadata
+async def main():
+    bad = []
+    for how in ("commit", "abort"):
+        tm = TransactionManager("tid", 1000)
+        tm.set_pid_and_epoch(1, 0)
+        tp = TopicPartition("t", 0)
+        for round_ in (1, 2):
+            tm.begin_transaction()
+            if round_ == 2:
+                if tm.txn_partitions or not tm.is_empty_transaction():
+                    bad.append("%s: the next transaction starts with %r / group %r registered" % (how, set(tm.txn_partitions), tm._txn_consumer_group))
+            tm.maybe_add_partition_to_txn(tp); tm.partition_added(tp)
+            fut = tm.add_offsets_to_txn({tp: OffsetAndMetadata(5, "")}, "g")
+            if tm.consumer_group_to_add() != "g":
+                bad.append("%s, transaction %d: the group is not registered with the coordinator again (AddOffsetsToTxn skipped)" % (how, round_))
+            tm.consumer_group_added("g")
+            tm.offset_committed(tp, 5, "g")
+            tm.committing_transaction() if how == "commit" else tm.aborting_transaction()
+            tm.complete_transaction()
+            if tm.state != TransactionState.READY or tm.abortable_error() is not None:
+                bad.append("%s: not READY after the transaction ended" % how)
+    return bad
+bad = asyncio.run(main())
+VIOLATED = bool(bad)
+DETAIL = "after complete_transaction(): %r" % (bad[:3],) if bad else "ok"
+'''
 
 
 @contract(MOD + ":TransactionManager.error_transaction", ["C16", "C07"])
@@ -246,7 +284,7 @@ def _(c):
     c.requires("self._transaction_waiter is not None and (self.state == TransactionState.FATAL_ERROR"
                " or not self._transaction_waiter.done())", "a-transaction-is-open")
     c.modifies("self.state", "self._txn_partitions", "self._txn_consumer_group", "self._pending_txn_partitions",
-               "self._pending_txn_offsets", "Future.state", "Future.nres", "Future.exc")
+               "self._pending_txn_offsets", "self._abortable_error", "Future.state", "Future.nres", "Future.exc")
     c.loop(0, header="for _, _, fut in self._pending_txn_offsets", invariants=[
         ("done-prefix", "forall(lambda j: implies(0 <= j < $i, self._pending_txn_offsets[j][2].done()))"),
         ("pending-suffix", "forall(lambda j: implies($i <= j < len(self._pending_txn_offsets),"
@@ -258,6 +296,9 @@ def _(c):
     c.raises("after-fatal", "AssertionError", when="self.state == TransactionState.FATAL_ERROR",
              ensures=[("no-effect", "unchanged(self)"), ("futures-untouched", "same_heap('Future')")], exact=True)
     c.ensures("abortable", "self.state == TransactionState.ABORTABLE_ERROR")
+    # the sender fails what was never handed to a broker with this error until the transaction is ended, in whatever
+    # state the manager is by then (abort_transaction may already have moved it to ABORTING)
+    c.ensures("the-error-stays-with-the-transaction", "self._abortable_error == exc")
     c.ensures("commit-will-raise", "self._transaction_waiter.done() and self._transaction_waiter.exception() == exc")
     c.ensures("pending-offsets-failed", "len(self._pending_txn_offsets) == 0 and forall(lambda j: implies("
               "0 <= j < len(old(self._pending_txn_offsets)), old(self._pending_txn_offsets)[j][2].done()))")
